@@ -118,11 +118,18 @@ class Interp:
         self.prog = prog
         self.rt = rt
         self.inv_no = inv_no
+        self.chains: dict[int, list] = {}
+
+    def next_chain(self, ctx) -> str:
+        """Position chain of the next operation created on ctx (indices only; ids must be a function of it)."""
+        c = self.chains.setdefault(id(ctx), ["", 0])
+        c[1] += 1
+        return "%s%d" % (c[0], c[1])
 
     # ------------------------------------------------------------------ plumbing
-    def call(self, path, kind, thunk, phase=None, cv=canon):
+    def call(self, path, kind, thunk, phase=None, cv=canon, chain=None):
         rt = self.rt
-        rt.rpc("call", path=path, opkind=kind, phase=phase)
+        rt.rpc("call", path=path, opkind=kind, phase=phase, chain=chain)
         try:
             v = thunk()
         except X.SuspendExecution as e:
@@ -235,7 +242,7 @@ class Interp:
         if k == "step":
             return self.do_step(ctx, node, path, item)
         if k == "wait":
-            return self.call(path, "wait", lambda: ctx.wait(duration(node["s"]), name=path))
+            return self.call(path, "wait", lambda: ctx.wait(duration(node["s"]), name=path), chain=self.next_chain(ctx))
         if k == "cb":
             return self.do_callback(ctx, node, path, item)
         if k == "wfcb":
@@ -271,7 +278,7 @@ class Interp:
             else C.StepSemantics.AT_LEAST_ONCE_PER_RETRY,
             serdes=SERDES[node.get("serdes")],
         )
-        return self.call(path, "step", lambda: ctx.step(fn, name=path, config=cfg))
+        return self.call(path, "step", lambda: ctx.step(fn, name=path, config=cfg), chain=self.next_chain(ctx))
 
     def do_callback(self, ctx, node, path, item):
         cfgd = node.get("cfg") or {}
@@ -281,7 +288,7 @@ class Interp:
             serdes=SERDES[cfgd.get("serdes")],
         )
         cb = self.call(path, "cb", lambda: ctx.create_callback(name=path, config=cfg), phase="create",
-                       cv=lambda c: canon(c.callback_id))
+                       cv=lambda c: canon(c.callback_id), chain=self.next_chain(ctx))
         between = self.run_body(ctx, node.get("between") or [], path + "/~", item)
         v = self.call(path, "cb", cb.result, phase="result")
         return (v, between) if between else v
@@ -301,7 +308,7 @@ class Interp:
                 serdes=SERDES[cfgd.get("serdes")],
                 retry_strategy=self.retry_strategy(path + "@sub", node.get("retry")),
             )
-        return self.call(path, "wfcb", lambda: ctx.wait_for_callback(submitter, name=path, config=cfg))
+        return self.call(path, "wfcb", lambda: ctx.wait_for_callback(submitter, name=path, config=cfg), chain=self.next_chain(ctx))
 
     def do_invoke(self, ctx, node, path):
         cfgd = node.get("cfg") or {}
@@ -312,7 +319,8 @@ class Interp:
             serdes_result=SERDES[cfgd.get("serdes_result")],
         )
         use_cfg = cfg if (cfgd or node.get("force_cfg")) else None
-        return self.call(path, "invoke", lambda: ctx.invoke(node["fn"], node.get("payload"), name=path, config=use_cfg))
+        return self.call(path, "invoke", lambda: ctx.invoke(node["fn"], node.get("payload"), name=path, config=use_cfg),
+                         chain=self.next_chain(ctx))
 
     def do_wfc(self, ctx, node, path):
         checks = node.get("checks") or [{"do": "ok", "fn": "inc"}]
@@ -349,7 +357,7 @@ class Interp:
 
         cfg = WaitForConditionConfig(wait_strategy=strategy, initial_state=node.get("init", 0),
                                      serdes=SERDES[node.get("serdes")])
-        return self.call(path, "wfc", lambda: ctx.wait_for_condition(check, cfg, name=path))
+        return self.call(path, "wfc", lambda: ctx.wait_for_condition(check, cfg, name=path), chain=self.next_chain(ctx))
 
     def _ctx_result(self, node, outs):
         if "result" in node:
@@ -360,7 +368,10 @@ class Interp:
         return [canon(o) for o in outs]
 
     def do_child(self, ctx, node, path, item):
+        chain = self.next_chain(ctx)
+
         def body(child_ctx):
+            self.chains[id(child_ctx)] = [chain + ".", 0]
             self.rt.rpc("fn_enter", path=path, fnkind="child")
             try:
                 outs = self.run_body(child_ctx, node["body"], path + "/", item)
@@ -375,7 +386,7 @@ class Interp:
         if cfgd:
             cfg = C.ChildConfig(serdes=SERDES[cfgd.get("serdes")],
                                 summary_generator=(lambda r: cfgd["summary"]) if "summary" in cfgd else None)
-        return self.call(path, "child", lambda: ctx.run_in_child_context(body, name=path, config=cfg))
+        return self.call(path, "child", lambda: ctx.run_in_child_context(body, name=path, config=cfg), chain=chain)
 
     @staticmethod
     def _completion(cfgd):
@@ -387,9 +398,10 @@ class Interp:
                                       tolerated_failure_percentage=cfgd.get("tol_pct"))
         return None
 
-    def _branch_fn(self, bpath, bnode, with_item):
+    def _branch_fn(self, bpath, bnode, bchain):
         def run(child_ctx, item=None):
-            self.rt.rpc("fn_enter", path=bpath, fnkind="branch")
+            self.chains[id(child_ctx)] = [bchain + ".", 0]
+            self.rt.rpc("fn_enter", path=bpath, fnkind="branch", chain=bchain)
             try:
                 outs = self.run_body(child_ctx, bnode["body"], bpath + "/", item)
             except BaseException as e:
@@ -403,9 +415,10 @@ class Interp:
 
     def do_par(self, ctx, node, path):
         cfgd = node.get("cfg") or {}
+        chain = self.next_chain(ctx)
         fns = []
         for i, b in enumerate(node["branches"]):
-            f = self._branch_fn("%s/b%d" % (path, i), b, False)
+            f = self._branch_fn("%s/b%d" % (path, i), b, "%s.b%d" % (chain, i))
             fns.append(lambda c, f=f: f(c))
         cfg = None
         if cfgd or node.get("force_cfg"):
@@ -417,16 +430,17 @@ class Interp:
             if "summary" in cfgd:
                 kw["summary_generator"] = lambda r: cfgd["summary"]
             cfg = C.ParallelConfig(**kw)
-        return self.call(path, "par", lambda: ctx.parallel(fns, name=path, config=cfg))
+        return self.call(path, "par", lambda: ctx.parallel(fns, name=path, config=cfg), chain=chain)
 
     def do_map(self, ctx, node, path):
         cfgd = node.get("cfg") or {}
         items = node["items"]
         per = node.get("per_item")  # optional list of bodies per item
+        chain = self.next_chain(ctx)
 
         def fn(child_ctx, item, index, _all):
             bnode = per[index] if per else node
-            return self._branch_fn("%s/b%d" % (path, index), bnode, True)(child_ctx, (index, item))
+            return self._branch_fn("%s/b%d" % (path, index), bnode, "%s.b%d" % (chain, index))(child_ctx, (index, item))
 
         cfg = None
         if cfgd or node.get("force_cfg"):
@@ -438,7 +452,7 @@ class Interp:
             if "summary" in cfgd:
                 kw["summary_generator"] = lambda r: cfgd["summary"]
             cfg = C.MapConfig(**kw)
-        return self.call(path, "map", lambda: ctx.map(items, fn, name=path, config=cfg))
+        return self.call(path, "map", lambda: ctx.map(items, fn, name=path, config=cfg), chain=chain)
 
     # ------------------------------------------------------------------ handler
     def user_fn(self, event, ctx):
